@@ -221,8 +221,9 @@ def risk_tags(exprs, kwargs, big, xexprs_list=()):
     """Structural input classes with a hand-confirmed defect (see known_findings.json).
 
     isolated-composite: after writing out the ellipses, some flattened/concatenated group, or a
-    contiguous run of >= 2 factors inside a flattened axis, uses only axis names that occur nowhere
-    else and have no keyword size (this is what common-subexpression elimination replaces by one axis).
+    contiguous run of >= 2 factors inside a flattened axis, taken together with all textually identical
+    occurrences of it, uses only axis names that occur nowhere else and have no keyword size (this is
+    what common-subexpression elimination replaces by one fresh axis).
     ellipsis-in-flatten: an ellipsis sits inside a flattened axis.
     """
     from ..gen.expr import Ax, Num, Flat, Cat, Ell, walk, Leaf, XFlat, XCat, xleaves
@@ -230,40 +231,54 @@ def risk_tags(exprs, kwargs, big, xexprs_list=()):
     if big:
         tags.append("big")
     iso = False
+
+    def l_t(name):
+        return name.split(".")[0]
+
+    def xtext(n):
+        if isinstance(n, Leaf):
+            return str(n.name) if not n.isnum else "#" + str(n.tname)
+        if isinstance(n, XFlat):
+            return "(" + " ".join(xtext(c) for c in n.items) + ")"
+        return "(" + " + ".join(xtext(c) for c in n.items) + ")"
+
     for xexprs in xexprs_list:
-        counts = {}
-        for e in xexprs:
-            for l in xleaves(e):
-                if not l.isnum:
-                    counts[l.name] = counts.get(l.name, 0) + 1
+        # numbers print as their value (two equal numbers are textually the same sub-expression)
+        def text_of(nodes):
+            def t(n):
+                if isinstance(n, Leaf):
+                    return n.name if not n.isnum else "<num>"
+                if isinstance(n, XFlat):
+                    return "(" + " ".join(t(c) for c in n.items) + ")"
+                return "(" + " + ".join(t(c) for c in n.items) + ")"
+            return " ".join(t(n) for n in nodes)
 
-        def isolated(nodes):
-            local = {}
-            for l in xleaves(nodes):
-                if not l.isnum:
-                    local[l.name] = local.get(l.name, 0) + 1
-            if not local and not any(True for _ in xleaves(nodes)):
-                return False
-            return all(counts[n] == c and l_t(n) not in kwargs for n, c in local.items())
-
-        def l_t(name):
-            return name.split(".")[0]
+        all_leaves = [l for e in xexprs for l in xleaves(e) if not l.isnum]
+        occ = {}  # text -> list of occurrences (lists of nodes): whole groups and contiguous runs inside groups
 
         def rec(items, at_root):
-            nonlocal iso
             for n in items:
                 if isinstance(n, (XFlat, XCat)):
-                    if isolated([n]):
-                        iso = True
+                    occ.setdefault(text_of([n]), []).append([n])
                     rec(n.items, False)
             if not at_root and len(items) >= 2:
-                for a in range(len(items)):
-                    for b in range(a + 2, len(items) + 1):
-                        if (a, b) != (0, len(items)) and isolated(items[a:b]):
-                            iso = True
+                for a_ in range(len(items)):
+                    for b_ in range(a_ + 2, len(items) + 1):
+                        occ.setdefault(text_of(items[a_:b_]), []).append(items[a_:b_])
 
         for e in xexprs:
             rec(e, True)
+        for text, occs in occ.items():
+            ids = {id(l) for o in occs for l in xleaves(o)}
+            names = {l.name for o in occs for l in xleaves(o) if not l.isnum}
+            if not names:
+                continue
+            if any(l_t(n) in kwargs for n in names):
+                continue
+            # every axis named inside the textually identical occurrences occurs only inside them
+            if all(id(l) in ids for l in all_leaves if l.name in names):
+                iso = True
+                break
     ell_in_flat = any(isinstance(m, Ell) for e in exprs for n in walk(e) if isinstance(n, (Flat, Cat)) for m in walk(n.items))
     if iso:
         tags.append("isolated-composite")
